@@ -1,7 +1,8 @@
 //! Small scenarios over the simulator's primitives, meant to be run under Miri
 //! (`cargo +nightly miri run -p dstsim --example miri_smoke`): scoped threads (the one `unsafe`
 //! block of the crate extends a scope reference), channels incl. rendezvous, locks, condvars,
-//! a task that panics, a deadlock that is torn down.
+//! a task that panics, a scope whose closure unwinds, park/unpark, a barrier, a deadlock that is
+//! torn down.
 use dstsim::shim::std::sync::{mpsc, Arc, Condvar, Mutex};
 use dstsim::shim::std::thread;
 
@@ -67,6 +68,48 @@ fn main() {
             r.is_err()
         });
         assert!(matches!(out.result, dstsim::RunResult::Done(true)), "{:?}", out.result.kind());
+        // park / unpark: a token given before the park is consumed by it; a worker parked on a
+        // flag is released by the flag + unpark; a timed park ends by its deadline; a barrier
+        // of three has exactly one leader
+        let out = dstsim::run(cfg.clone(), || {
+            use dstsim::shim::std::sync::atomic::{AtomicBool, Ordering};
+            use dstsim::shim::std::sync::Barrier;
+            thread::current().unpark();
+            thread::park();
+            let flag = Arc::new(AtomicBool::new(false));
+            let f2 = flag.clone();
+            let w = thread::spawn(move || {
+                let mut parks = 0u32;
+                while !f2.load(Ordering::SeqCst) {
+                    thread::park();
+                    parks += 1;
+                }
+                parks
+            });
+            thread::park_timeout(std::time::Duration::from_millis(5));
+            flag.store(true, Ordering::SeqCst);
+            w.thread().unpark();
+            let parks = w.join().unwrap();
+            let b = Arc::new(Barrier::new(3));
+            let hs: Vec<_> = (0..2)
+                .map(|_| {
+                    let b = b.clone();
+                    thread::spawn(move || b.wait().is_leader())
+                })
+                .collect();
+            let mut leaders = u32::from(b.wait().is_leader());
+            for h in hs {
+                leaders += u32::from(h.join().unwrap());
+            }
+            (parks <= 1, leaders)
+        });
+        assert!(matches!(out.result, dstsim::RunResult::Done((true, 1))), "{:?}", out.result.kind());
+        // a task parked for ever is a deadlock, reported as such
+        let out = dstsim::run(cfg.clone(), || {
+            let h = thread::spawn(|| thread::park());
+            let _ = h.join();
+        });
+        assert!(matches!(out.result, dstsim::RunResult::Deadlock(_)), "{:?}", out.result.kind());
         // a deadlock is detected and torn down (every task unwinds)
         let out = dstsim::run(cfg, || {
             let (tx, rx) = mpsc::channel::<u8>();
